@@ -466,3 +466,43 @@ Proof.
     unfold info_at in Hi2. apply lookup_loc_In' in Hi2 as (l' & _ & Hin). specialize (Hall _ Hin). cbn [snd] in Hall.
     rewrite Hl in Hall. now apply Nat.ltb_lt.
 Qed.
+
+(** * a rank computed from the Resolved (longest chain of in-place calls), for the correspondence runs *)
+Definition inplace_callees (e : env) (l : loc) (s : schema) : list loc :=
+  map (fun qc : list seg * schema => child_loc l (fst qc)) (filter (fun qc : list seg * schema => inplace_key (fst qc)) (children s)) ++
+  match info_at e l with
+  | None => []
+  | Some i =>
+      (if nonempty (s_ref s) then match ri_ref i with Some t => [t] | None => [] end else []) ++
+      (if nonempty (s_dynamicRef s) then
+         match ri_dynref i with
+         | Some t0 =>
+             t0 :: flat_map (fun li : loc * rinfo =>
+                               match lookup (ri_dynanchor i) (ri_anchors (snd li)) with
+                               | Some (t, true) => [t]
+                               | _ => []
+                               end) (e_infos e)
+         | None => []
+         end
+       else [])
+  end.
+
+Definition rank_step (e : env) (tbl : list (loc * nat)) : list (loc * nat) :=
+  map (fun ls : loc * schema =>
+         (fst ls, fold_right (fun t acc => Nat.max acc (S (match lookup_loc t tbl with Some n => n | None => 0 end))) 0
+                             (inplace_callees e (fst ls) (snd ls))))
+      (e_nodes e).
+
+Fixpoint rank_iter (e : env) (k : nat) (tbl : list (loc * nat)) : list (loc * nat) :=
+  match k with O => tbl | S k' => rank_iter e k' (rank_step e tbl) end.
+
+Definition rank_table (e : env) : list (loc * nat) :=
+  rank_iter e (length (e_nodes e)) (map (fun ls : loc * schema => (fst ls, 0)) (e_nodes e)).
+
+(* does the computed rank satisfy the rank condition (it does exactly when no chain of in-place calls closes) *)
+Definition rank_auto (e : env) : bool :=
+  let tbl := rank_table e in
+  rank_okb e (fun l => match lookup_loc l tbl with Some n => n | None => 0 end) (length (e_nodes e)).
+
+Theorem rank_auto_sound e : rank_auto e = true -> exists rk R, RankOK e rk R.
+Proof. intros H. eexists. eexists. apply rank_okb_sound. exact H. Qed.
